@@ -15,6 +15,9 @@ CLASSES = [("initial_config.yaml", "initial_config"), ("training_config.yaml", "
 def classify(path, out_dir, chunk_dir):
     rel = os.path.relpath(path, out_dir)
     base = os.path.basename(path)
+    for fb in ("train_chunks", "val_chunks"):
+        if os.path.abspath(path).startswith(os.path.join(os.getcwd(), fb)):
+            return "chunk_npz" if base.endswith(".npz") else "chunk_other"
     if chunk_dir and os.path.abspath(path).startswith(os.path.abspath(chunk_dir) + os.sep):
         if base == "config.yaml":
             return "chunk_config"
@@ -57,7 +60,9 @@ def main():
     chunk_dir = os.path.join(work, "chunks") if job["fw"] == "torch_dataset_np_chunks" else None
     import hashlib
     token = "K" + hashlib.sha256(("%s-%s" % (J["seed"], sorted(job.items()))).encode()).hexdigest()[:31]
-    watched = [os.path.abspath(out_dir)] + ([os.path.abspath(chunk_dir)] if chunk_dir else [])
+    # the low-memory fallback writes its chunks to ./train_chunks and ./val_chunks relative to the working directory
+    fallback = [os.path.join(os.getcwd(), "train_chunks"), os.path.join(os.getcwd(), "val_chunks")]
+    watched = [os.path.abspath(out_dir)] + ([os.path.abspath(chunk_dir)] if chunk_dir else []) + fallback
     states, active, busy = [], [False], [False]
 
     def scan(ev_cls, ev_kind):
@@ -138,6 +143,18 @@ def main():
         from sleap_nn.config.training_job_config import verify_training_cfg
         supplied = OmegaConf.to_container(verify_training_cfg(OmegaConf.create(OmegaConf.to_container(cfg, resolve=True))), resolve=True)
         from sleap_nn.training.model_trainer import ModelTrainer
+        import sleap_nn.training.model_trainer as mt
+        if job.get("lowmem"):
+            # simulated memory pressure: the in-memory cache "does not fit", the trainer must fall back to npz chunks
+            class _VM:
+                available = 1024
+
+            class _PS:
+                @staticmethod
+                def virtual_memory():
+                    return _VM()
+
+            mt.psutil = _PS
         from loguru import logger
         logger.remove()
         active[0] = True
